@@ -226,6 +226,70 @@ func runC17(w *mc.Worker) {
 	}
 	flagsOn := map[string]struct{}{interpreter.ExperimentalOverdraftFunctionFeatureFlag: {}}
 	c17Nested(w, flagsOn)
+	{
+		sn := 3
+		if w.Tier == "thorough" {
+			sn = 4
+		}
+		runScopeSpace(w, fmt.Sprintf("sendall-scopes-n%d", sn), sn, c17ScopeJudge(w, flagsOn))
+	}
+	// one metadata entry read by two variables of different declared types (its text is a value of both)
+	w.Stage("meta-shared-key", "ordered pairs of declarations T1 $x = meta(@a, \"k\"), T2 $y = meta(@a, \"k\") over the six types, the entry holding a text that is a value of both types, each variable then used where its type is required", func() {
+		valid := map[string][]string{"number": {"5"}, "string": {"5", "USD", "1/2", "USD 5", "bob"}, "account": {"5", "USD", "bob"}, "asset": {"USD"}, "portion": {"1/2"}, "monetary": {"USD 5"}}
+		use := map[string]string{
+			"account":  "send [ USD 1 ] ( source = @world destination = $%s )",
+			"number":   "set_tx_meta ( \"n%s\" , $%s + 1 )",
+			"monetary": "send $%s ( source = @world destination = @x )",
+			"portion":  "send [ USD 4 ] ( source = @world destination = { $%s to @x remaining kept } )",
+			"asset":    "send [ $%s 1 ] ( source = @world destination = @x )",
+			"string":   "set_tx_meta ( $%s , 1 )",
+		}
+		types := []string{"string", "account", "number", "asset", "portion", "monetary"}
+		w.Outer("meta-shared-key/pair", 0, func(o *mc.Explorer) {
+			t1, t2 := types[o.Choose(6)], types[o.Choose(6)]
+			var common []string
+			for _, a := range valid[t1] {
+				for _, b := range valid[t2] {
+					if a == b {
+						common = append(common, a)
+					}
+				}
+			}
+			if len(common) == 0 || !w.Mine("shared"+t1+t2) {
+				return
+			}
+			w.Owned()
+			mkUse := func(t, v string) string {
+				if t == "number" {
+					return fmt.Sprintf(use[t], v, v)
+				}
+				return fmt.Sprintf(use[t], v)
+			}
+			text := fmt.Sprintf("vars { %s $x = meta ( @a , \"k\" ) %s $y = meta ( @a , \"k\" ) }\n%s\n%s\nset_tx_meta ( \"x\" , $x )\nset_tx_meta ( \"y\" , $y )\n", t1, t2, mkUse(t1, "x"), mkUse(t2, "y"))
+			w.Inner(0, func(in *mc.Explorer) {
+				val := common[in.Choose(len(common))]
+				var res analysis.CheckResult
+				if p, _ := guard(func() { res = analysis.CheckSource(text) }); p != "" {
+					return
+				}
+				if res.GetErrorsCount() > 0 {
+					w.Eval(text+val, false, "check-reports-errors")
+					return
+				}
+				pr, ok := parseQuiet(text)
+				if !ok {
+					return
+				}
+				meta := env.Meta{"a": {"k": val}}
+				out := RunReal(pr, nil, env.New(env.Exact, nil, meta), flagsOn)
+				w.Eval(text+val, t1 != t2, fmt.Sprintf("shared-key %s/%s run=%s", t1, t2, out.Class()))
+				if out.Err != nil && isStaticCause(out.ErrType) {
+					c := Case{Script: text, Meta: meta, Observed: out.ErrType + ": " + out.Err.Error(), Extra: map[string]any{"diagnostics": diagSet(res)}}
+					w.Violation("C17.static-failure:"+out.ErrType+":shared-meta-key", "the checker reported no error, yet execution failed with "+out.ErrType+": "+out.Err.Error(), len(text), c)
+				}
+			})
+		})
+	})
 	// arithmetic between a variable that has an origin and a partner of every type, in every typed position
 	w.Stage("origin-infix", "3 origin declarations (balance / meta number / overdraft) x {$v op P, P op $v} x op in {+,-} x P in {number, monetary, string, account, portion} x 4 positions (sent amount, cap, overdraft bound, metadata value)", func() {
 		w.Outer("origin-infix/script", 0, func(o *mc.Explorer) {
